@@ -108,7 +108,10 @@ func (e *Engine) mergeStates(conds []*smt.Term, sts []*State) *State {
 func (e *Engine) newRef(st *State) *smt.Term {
 	r := st.Alloc
 	st.Alloc = e.X.BVAdd(r, e.X.Const(1, 32))
-	// no wrap-around of the allocation counter (stated assumption: fewer than 2^31 allocations)
+	// no wrap-around of the allocation counter (stated assumption: fewer than 2^27 allocations)
+	if !r.IsConst() && e.specDepth == 0 {
+		e.assume(e.X.Ule(r, e.X.Const(0x07ffffff, 32)))
+	}
 	return r
 }
 
@@ -224,6 +227,20 @@ func (e *Engine) store(st *State, ptr Val, v Val) {
 // memory or from the caller: references were allocated before now, slice headers are sane.
 func (e *Engine) assumeWellTyped(st *State, v Val) {
 	if e.specDepth > 0 {
+		// inside specifications nothing is assumed, but a reference read from the entry heap is
+		// still known (syntactically) to predate every allocation of the call
+		if e.alloc0 != nil {
+			for i, c := range comps(v.T) {
+				if c.Sort == RefSort && (strings.HasSuffix(c.Suffix, ".r") || strings.HasSuffix(c.Suffix, ".p")) && i < len(v.C) && isInitialHeapRead(v.C[i]) {
+					e.X.OldRef[v.C[i].ID()] = true
+					if !e.h0facts[v.C[i].ID()] && !v.C[i].IsOpen() {
+						// valid on every path: stated without a path condition
+						e.h0facts[v.C[i].ID()] = true
+						e.Assumptions = append(e.Assumptions, e.X.Ult(v.C[i], e.alloc0))
+					}
+				}
+			}
+		}
 		return
 	}
 	var facts []*smt.Term
